@@ -1,15 +1,8 @@
-"""Per-property configuration of bin/check: Lean proof modules, correspondence modes, evidence rule."""
-
-PROPS = {
-    'C22': {
-        'proofs': ['Tetro.Proofs.C22'],
-        'modes': ['joyp'],
-        'rule': 'joyp: every reachable abstract controller state (4 select settings x 9 direction states x 16 button '
-                'states) is set up through the public API, then every single transition (16 events, 256 writes) is applied '
-                'and JOYP is read under all four select settings; a case is distinct by (state, transition, 4-read signature); '
-                'plus seeded random walks',
-        'exhaustive': True,
-        'exhaustive_space': 'reachable controller states x (16 button events + 256 JOYP writes), one step',
-        'assumptions': ['Spec/Joyp.lean is our reading of the DMG joypad register'],
-    },
-}
+"""Per-property configuration of bin/check: one JSON file per property under bin/props/."""
+import json, os
+_d = os.path.join(os.path.dirname(os.path.abspath(__file__)), 'props')
+PROPS = {}
+for _fn in sorted(os.listdir(_d)):
+    if _fn.endswith('.json'):
+        _c = json.load(open(os.path.join(_d, _fn)))
+        PROPS[_c['id']] = _c
